@@ -1286,7 +1286,14 @@ class RecurrencePlot(Cached):
         R = self.recurrence_matrix()
         n_time = self.N
         white_vertline = np.zeros(n_time, dtype=NODE)
-        _white_vertline_dist(n_time, white_vertline, R)
+        if self.missing_values:
+            #  white lines are the black lines of the inverted matrix; the
+            #  kernel drops lines touching missing samples
+            _vertline_dist_missingvalues(
+                n_time, white_vertline, (1 - R).astype(R.dtype),
+                self.missing_value_indices)
+        else:
+            _white_vertline_dist(n_time, white_vertline, R)
 
         #  Function covers the whole recurrence matrix
         return white_vertline
